@@ -32,8 +32,9 @@ EXPLANATION = (
     "pointer; priority_en == (grants != 0) [& en]; composed with the extracted connections and the RegEnRst block the next "
     "pointer is rotl(grants) when enabled, unchanged otherwise, and 1 under reset -- hence one-hot by induction for these "
     "sizes. This is an exhaustive decision of the combinational grant function for the listed sizes, not a proof for all "
-    "nreqs; the code is additionally required to be uniform in nreqs (no case distinction on nreqs), otherwise the "
-    "analysis refuses (ANALYSIS-ERROR). "
+    "nreqs; the update blocks are additionally required to be uniform in nreqs (no case distinction on nreqs), otherwise "
+    "the analysis refuses (ANALYSIS-ERROR); case distinctions on nreqs in construct() itself (which signals exist, what is "
+    "connected) are evaluated per concrete nreqs, for every size 2..16 and beyond every constant such a distinction mentions. "
     "R-C19-siblings: RoundRobinArbiter and RoundRobinArbiterEn declare the same signals (up to `en`) and compute the same "
     "grants / next pointer for every request vector and every reachable (one-hot) pointer when en=1, and the En variant "
     "holds the pointer (with unchanged grants) when en=0 (same sizes as R-C19-grant).")
@@ -122,6 +123,10 @@ def build_model(repo, mod, con, args):
                     m.ff.append(st)
                 else:
                     raise AnalysisError(f"{con.name}: update block {st.name} with decorators {decs} is outside the model")
+                continue
+            if isinstance(st, ast.If):
+                # a case distinction on the (concrete) parameters: take the branch this parameter value takes
+                scan(st.body if ev(st.test, local) else st.orelse, local)
                 continue
             if isinstance(st, ast.For):
                 if st.orelse or not isinstance(st.target, ast.Name):
@@ -488,7 +493,8 @@ def _nonuniform(con):
                 changed = True
     hits = []
     in_assert = {id(x) for a in ast.walk(con) if isinstance(a, ast.Assert) for x in ast.walk(a)}
-    for n in ast.walk(con):
+    blocks = [b for b in ast.walk(con) if isinstance(b, ast.FunctionDef) and b is not con]
+    for n in (x for b in blocks for x in ast.walk(b)):
         bad = None
         if id(n) in in_assert:
             continue                   # a parameter check (`assert nreqs >= 2`) selects no behaviour
@@ -513,7 +519,7 @@ def rule_grant(repo, sizes=SMALL):
     r = RuleResult('R-C19-grant', "small scope (nreqs in %s): for all request vectors x all one-hot pointers (x en) grants == first "
                                   "requester at/after the pointer (zero iff no request), priority_en == (grants!=0)[&en], next "
                                   "pointer == rotl(grants) when enabled else unchanged, 1 under reset" % (list(sizes),))
-    probe = ast.parse("def construct(s, nreqs):\n  nreqsX2 = nreqs * 2\n  for i in range(min(nreqsX2, 8)):\n    pass\n").body[0]
+    probe = ast.parse("def construct(s, nreqs):\n  nreqsX2 = nreqs * 2\n  @update\n  def up():\n    for i in range(min(nreqsX2, 8)):\n      pass\n").body[0]
     if not _nonuniform(probe):
         raise AnalysisError("R-C19-grant: embedded non-uniform example not recognised (checker broken)")
     for cls, has_en in CLASSES:
@@ -582,6 +588,38 @@ def rule_grant_larger(repo):
 
 
 # ---------------------------------------------------------------------------
+def _construct_thresholds(con):
+    """integer constants that construct-level `if` statements (outside update blocks) compare the parameters with"""
+    out = set()
+
+    def scan(stmts):
+        for st in stmts:
+            if isinstance(st, (ast.FunctionDef, ast.ClassDef)):
+                continue
+            if isinstance(st, ast.If):
+                out.update(n.value for n in ast.walk(st.test) if isinstance(n, ast.Constant) and isinstance(n.value, int)
+                           and not isinstance(n.value, bool))
+            for fld in ('body', 'orelse'):
+                sub = getattr(st, fld, None)
+                if isinstance(sub, list):
+                    scan(sub)
+            for n in ast.walk(st) if not isinstance(st, (ast.If, ast.For, ast.While)) else []:
+                if isinstance(n, ast.IfExp):
+                    out.update(x.value for x in ast.walk(n.test) if isinstance(x, ast.Constant) and isinstance(x.value, int)
+                               and not isinstance(x.value, bool))
+    scan(con.body)
+    return out
+
+
+def _wiring_sizes(repo, cls):
+    """nreqs values for which construct() is partially evaluated: 2..16, extended beyond every threshold that a construct-level
+    case distinction mentions (so that both sides of each distinction are covered)"""
+    con = repo.mod(ARB).get_func(f'{cls}.construct')
+    th = [t for t in _construct_thresholds(con) if 0 <= t <= 60]
+    hi = max([WIRING_NS[-1]] + [t + 2 for t in th])
+    return tuple(range(2, hi + 1))
+
+
 def rule_wiring(repo):
     r = RuleResult('R-C19-wiring', "priority register is RegEnRst(mk_bits(nreqs), reset_value=1); grants -> register input tiles "
                                    "[0,nreqs) as rotate-left-by-one; enable is priority_en; RegEnRst: reset over enable, else hold")
@@ -590,7 +628,8 @@ def rule_wiring(repo):
         q = f'{cls}.construct'
         problems = {}
         a = None
-        for n in WIRING_NS:
+        sizes = _wiring_sizes(repo, cls)
+        for n in sizes:
             try:
                 a = Arbiter(repo, cls, n)
             except Raised as ex:
@@ -638,7 +677,7 @@ def rule_wiring(repo):
                   ('reset', 'reset_value == 1'),
                   ('ports', 'reqs/grants are nreqs bits, priority_en is 1 bit'),
                   ('en', f'{a.reg_path}.en <- priority_en'),
-                  ('tile', f'{a.reg_path}.in_ <- rotl(grants) (nreqs {WIRING_NS[0]}..{WIRING_NS[-1]})')]
+                  ('tile', f'{a.reg_path}.in_ <- rotl(grants) (nreqs {sizes[0]}..{sizes[-1]})')]
         for key, cons in checks:
             if 'model' in problems:
                 r.bad(mod, q, cons, problems['model'], line)
@@ -769,6 +808,8 @@ MUTANTS = [
     _m('wrap-bit-from-grant0', "connect( m.in_[0],       s.grants[nreqs-1] )", "connect( m.in_[0],       s.grants[0] )", 'R-C19-wiring'),
     _m('en-no-rotation', "    m.in_[1:nreqs] //= s.grants[0:nreqs-1]\n    m.in_[0]       //= s.grants[nreqs-1]", "    m.in_[0:nreqs-1] //= s.grants[0:nreqs-1]\n    m.in_[nreqs-1]   //= s.grants[nreqs-1]", 'R-C19-wiring'),
     _m('rotate-slice-short', "connect( m.in_[1:nreqs], s.grants[0:nreqs-1] )", "connect( m.in_[1:nreqs-1], s.grants[0:nreqs-2] )", 'R-C19-wiring'),
+    _m('rotation-missing-for-two-requesters', "    connect( m.in_[1:nreqs], s.grants[0:nreqs-1] )\n", "    if nreqs > 2:\n      connect( m.in_[1:nreqs], s.grants[0:nreqs-1] )\n", 'R-C19-wiring'),
+    _m('en-rotation-missing-above-twenty', "    m.in_[1:nreqs] //= s.grants[0:nreqs-1]\n", "    if nreqs <= 20:\n      m.in_[1:nreqs] //= s.grants[0:nreqs-1]\n    else:\n      m.in_[1:nreqs] //= s.grants[1:nreqs]\n", 'R-C19-wiring'),
     _m('en-enable-from-en-only', "    m.en           //= s.priority_en", "    m.en           //= s.en", 'R-C19-wiring'),
     _m('register-without-enable', None, None, 'R-C19-wiring'),
     _m('en-priority-en-or', _EN_PEN, "      s.priority_en @= ( s.grants != 0 ) | s.en\n", 'R-C19-grant'),
@@ -817,6 +858,7 @@ EQUIV = [
        "    assert nreqs >= 2\n    s.nreqs = nreqs\n    nreqsX2, last = nreqs * 2, nreqs - 1\n    Type    = mk_bits( s.nreqs )\n\n    s.reqs   = InPort ( Type )"),
     _m('grant-block-locals-ifexp', "        if s.priority_int[i]:\n          s.grants_int[i] @= s.reqs_int[i]\n        else:\n          s.grants_int[i] @= ~s.kills[i] & s.reqs_int[i]",
        "        req = s.reqs_int[i]\n        killed = s.kills[i]\n        s.grants_int[i] @= req if s.priority_int[i] else ~killed & req", count='first'),
+    _m('rotation-guarded-correctly', "    connect( m.in_[1:nreqs], s.grants[0:nreqs-1] )\n", "    if nreqs > 1:\n      connect( m.in_[1:nreqs], s.grants[0:nreqs-1] )\n"),
     _m('en-conjuncts-swapped', _EN_PEN, "      s.priority_en @= s.en & ( s.grants != 0 )\n"),
     _m('doubling-constant-form', "    nreqsX2 = nreqs * 2\n", "    nreqsX2 = nreqs + nreqs\n", count=2),
 ]
